@@ -312,6 +312,11 @@ func (g *Gen) genAction(self string) *Action {
 		}
 		return &Action{Kind: "asg", Path: t, Form: []string{"=", "+="}[g.pick(2)], E: e}
 	}
+	if g.dynArr && g.chance(0.2) {
+		// a write-only element addressed through a computed selector: nothing but this assignment ever resolves it
+		sel := []Expr{&Bin{Op: "-", L: CI(1), R: P("F.I")}, &Bin{Op: "+", L: P("F.I"), R: CI(0)}, P("F.I")}[g.pick(3)]
+		return &Action{Kind: "asg", Path: P("F.Out").With(Step{Sel: sel, SelT: "i"}), Form: "=", E: g.exactInt(1)}
+	}
 	switch k := g.pick(10); {
 	case k == 0:
 		bl := []string{"F.B", "F.C"}
@@ -505,7 +510,7 @@ func (g *Gen) World() *World {
 	v := func() int64 { return int64(g.pick(5)) }
 	f := &Fact{X: v(), Y: v(), Z: v(), XX: v(), H: v(), K: int(v()), W: int32(v()), B: g.chance(0.5), C: g.chance(0.5),
 		S: []string{"", "a", "b", "ab"}[g.pick(4)], T: []string{"", "a", "b"}[g.pick(3)], I: int64(g.pick(2)),
-		P: &Sub{V: v(), S: []string{"", "a"}[g.pick(2)]}, Spare: &Sub{V: 7, S: "sp"}, Arr: []int64{v(), v()}, M: map[string]int64{"a": v(), "b": v()}}
+		P: &Sub{V: v(), S: []string{"", "a"}[g.pick(2)]}, Spare: &Sub{V: 7, S: "sp"}, Arr: []int64{v(), v()}, Out: []int64{0, 0}, M: map[string]int64{"a": v(), "b": v()}}
 	if g.p.PFault > 0 {
 		if g.chance(0.5) {
 			f.Q = &Sub{V: v()}
